@@ -1075,6 +1075,15 @@ fn replay(path: &str) -> i32 {
     let text = std::fs::read_to_string(path).expect("read replay");
     let v: Value = serde_json::from_str(&text).expect("json");
     let case = &v["case"];
+    if let Some(n) = case.get("crowd").and_then(|x| x.as_u64()) {
+        for _ in 0..5 {
+            if let Some(msg) = crowd(n as usize) {
+                println!("C18:transcript: crowd scenario: {}", msg);
+                return 1;
+            }
+        }
+        return 0;
+    }
     let start = drive::start_from_json(&case["start"]).expect("start");
     let actions: Vec<Action> = case["actions"].as_array().unwrap().iter().map(|x| drive::parse_action_text(x.as_str().unwrap()).unwrap()).collect();
     let progs: Vec<Prog> = case["programs"]
@@ -1150,6 +1159,93 @@ fn firstuse(path: &str) -> i32 {
     0
 }
 
+/// Crowd scenario (once per run): far more threads than cores, all alive at the same time, every one of
+/// them asking a shared state at the last step of a turn (and a turn-start state) for everything, twice,
+/// with a rendezvous in between so that none has exited before all have asked. Per-thread or pooled
+/// resources sized for "a reasonable number of threads" run out here. Returns a description of the
+/// first thread that panicked or answered differently from the one-thread run.
+fn crowd(threads: usize) -> Option<String> {
+    let start: GameState = "7g\n +-----------------+\n8| r r r   r r r r |\n7|       e         |\n6|     x     x     |\n5|                 |\n4|       E         |\n3|     x     x     |\n2|         H       |\n1| R R R R   R R R |\n +-----------------+\n   a b c d e f g h".parse().ok()?;
+    // a history with a repeated position, then three steps into the turn
+    let mut g = start.clone();
+    for t in ["d4n", "p", "d7n", "p", "d5s", "p", "d8s", "p", "d4n", "p", "d7n", "p"] {
+        let a: Action = t.parse().ok()?;
+        if !g.valid_actions().contains(&a) {
+            break;
+        }
+        g = g.take_action(&a);
+    }
+    let turn_start = g.clone();
+    for t in ["e2n", "e3n", "e4e"] {
+        let a: Action = t.parse().ok()?;
+        if g.valid_actions().contains(&a) {
+            g = g.take_action(&a);
+        }
+    }
+    let states = Arc::new([g, turn_start]);
+    let want: Vec<u64> = states.iter().map(|s| { let mut t = Transcript::default(); observe_rotated(s, &mut t, 0); t.h }).collect();
+    let want = Arc::new(want);
+    let barrier = Arc::new(Barrier::new(threads));
+    let gid = watch::new_group(threads, "crowd scenario");
+    let hs: Vec<_> = (0..threads)
+        .map(|i| {
+            let (states, want, barrier) = (states.clone(), want.clone(), barrier.clone());
+            std::thread::Builder::new().stack_size(256 * 1024).spawn(move || {
+                let _member = watch::enter(gid);
+                barrier.wait();
+                let mut bad = None;
+                for round in 0..2 {
+                    for (k, s) in states.iter().enumerate() {
+                        for rep in 0..30 {
+                            match guard(|| {
+                                let mut t = Transcript::default();
+                                observe_rotated(s, &mut t, 0);
+                                t.h
+                            }) {
+                                Ok(h) => {
+                                    if h != want[k] && bad.is_none() {
+                                        bad = Some(format!("thread {} of {} got a different answer (round {}, state {}, repetition {})", i, threads, round, k, rep));
+                                    }
+                                }
+                                Err(p) => {
+                                    if bad.is_none() {
+                                        bad = Some(format!("thread {} of {} (all alive and asking the same two states) panicked: {}", i, threads, p));
+                                    }
+                                }
+                            }
+                        }
+                    }
+                    // a burst of the cheapest query from every thread at once (threads that are preempted in the
+                    // middle of it keep whatever they hold)
+                    for _ in 0..(if round == 0 { 100_000 } else { 2_000 }) {
+                        if let Err(p) = guard(|| (states[1].is_terminal().is_some(), states[1].has_move(states[1].piece_board()).is_some())) {
+                            if bad.is_none() {
+                                bad = Some(format!("thread {} of {} (all alive, all asking is_terminal / has_move of one turn-start state) panicked: {}", i, threads, p));
+                            }
+                            break;
+                        }
+                    }
+                    barrier.wait();
+                }
+                bad
+            })
+        })
+        .collect();
+    let mut out = None;
+    for (i, h) in hs.into_iter().enumerate() {
+        match h {
+            Ok(j) => match j.join() {
+                Ok(Some(b)) => out = out.or(Some(b)),
+                Ok(None) => {}
+                Err(_) => out = out.or(Some(format!("thread {} of {} panicked while the others were alive and asking the same states", i, threads))),
+            },
+            Err(_) => {}
+        }
+    }
+    watch::close(gid);
+    out
+}
+
 fn main() {
     install_hook();
     let args: Vec<String> = std::env::args().collect();
@@ -1161,6 +1257,10 @@ fn main() {
         std::process::exit(firstuse(&args[2]));
     }
     watch::start(3);
+    if let Some(msg) = crowd(160) {
+        println!("{}", json!({"evaluations": 1, "nontrivial": [], "counters": {}, "samples": [], "violation": {"clause": "C18:transcript", "detail": format!("crowd scenario: {}", msg), "case": {"crowd": 160}}}));
+        return;
+    }
     let seed: u64 = args[2].parse().unwrap();
     let cases: u32 = args[3].parse().unwrap();
     let shards: usize = args[4].parse().unwrap();
